@@ -190,7 +190,7 @@ class Connection(object):
 class Directive(object):
   """A fault addressed at (endpoint, connection ordinal, op kind, op index).
   Any of ep/conn/index may be None (= any)."""
-  __slots__ = ('ep', 'conn', 'op', 'index', 'kind', 'arg', 'fired', 'once')
+  __slots__ = ('ep', 'conn', 'op', 'index', 'kind', 'arg', 'fired', 'once', 'nth')
 
   def __init__(self, d):
     self.ep = d.get('ep')
@@ -200,6 +200,7 @@ class Directive(object):
     self.kind = d['kind']
     self.arg = d.get('arg')
     self.once = d.get('once', True)
+    self.nth = d.get('nth')          # n-th operation of this kind on the connection (1-based), or None
     self.fired = 0
 
   def matches(self, ep, conn, op, index):
@@ -289,7 +290,12 @@ class Net(object):
     idx = conn.ops
     if self.record_ops:
       self.oplog.append((conn.id, idx, op))
+    # ordinal of this operation among the operations of its own kind on the connection
+    kc = conn.__dict__.setdefault('kind_ops', {})
+    kc[op] = kc.get(op, 0) + 1
     for d in self.directives:
+      if d.nth is not None and d.nth != kc[op]:
+        continue
       if d.matches(conn.ep.index, conn.ordinal, op, idx):
         d.fired += 1
         self.count('dir.%s.%s' % (op, d.kind))
